@@ -14,6 +14,9 @@ Proof.
   destruct (x =? 255) eqn:E1; [apply N.eqb_eq in E1; intros [= <-]; now subst|discriminate].
 Qed.
 
+Lemma some_inj {A} (x y : A) : Some x = Some y -> x = y.
+Proof. congruence. Qed.
+
 Lemma cb_bool_canonical s b rest : read_bool s = Some (b, rest) -> bytes_ok s ->
   exists c, read_asn1_tag 1 s = Some (c, rest) /\ c = [if b then 255 else 0].
 Proof.
@@ -42,9 +45,6 @@ Proof.
   - apply int_content_bigint.
   - now apply checked_int_content.
 Qed.
-
-Lemma some_inj {A} (x y : A) : Some x = Some y -> x = y.
-Proof. congruence. Qed.
 
 Lemma signed_is_bigint c z : bytes_ok c -> check_asn1_integer c = true -> asn1_signed c = Some z ->
   bigint_of_bytes c = z /\ fits_signed 64 z = true.
@@ -101,7 +101,7 @@ Proof.
   destruct (z <? -128)%Z; [|reflexivity]. f_equal. apply IH. apply Z.shiftr_neg. lia.
 Qed.
 Lemma shiftr8_nonneg k z : (0 <= z)%Z -> (0 <= shiftr8 k z)%Z.
-Proof. revert z; induction k as [|k IH]; intros z Hz; cbn; [lia|]. apply IH. apply Z.shiftr_nonneg. lia. Qed.
+Proof. revert z; induction k as [|k IH]; intros z Hz; cbn [shiftr8]; [lia|]. apply IH. apply Z.shiftr_nonneg. lia. Qed.
 Lemma a_len_neg_nonneg f z : (0 <= z)%Z -> a_len_neg f z = 0%nat.
 Proof. destruct f; [reflexivity|]. intro Hz. cbn. rewrite (proj2 (Z.ltb_ge z (-128))) by lia. reflexivity. Qed.
 Lemma a_len_pos_neg f z : (z < 0)%Z -> a_len_pos f z = 0%nat.
@@ -118,7 +118,7 @@ Qed.
 
 Lemma a_int64_canonical c z : bytes_ok c -> a_parse_int64 c = Some z -> a_int64_bytes z = c.
 Proof.
-  unfold a_parse_int64. rewrite a_check_is_check. intros Hok H.
+  unfold a_parse_int64. change a_check_integer with check_asn1_integer. intros Hok H.
   destruct (check_asn1_integer c) eqn:Hc; [|discriminate].
   rewrite a_int64_bytes_eq. now apply cb_int64_canonical.
 Qed.
@@ -132,7 +132,7 @@ Proof.
 Qed.
 Lemma a_bigint_canonical c z : bytes_ok c -> a_parse_bigint c = Some z -> bigint_content z = c.
 Proof.
-  unfold a_parse_bigint. rewrite a_check_is_check. intros Hok H.
+  unfold a_parse_bigint. change a_check_integer with check_asn1_integer. intros Hok H.
   destruct (check_asn1_integer c) eqn:Hc; [|discriminate]. injection H as <-. now apply bigint_canonical.
 Qed.
 
@@ -146,8 +146,8 @@ Proof.
   assert (C : check_asn1_integer (b0 :: b1 :: l) = false).
   { cbn [check_asn1_integer]. destruct H as [[-> H]|[-> H]].
     - rewrite (ltb_true _ _ H). reflexivity.
-    - rewrite (leb_true _ _ H). cbn. now rewrite orb_true_r. }
-  unfold a_parse_int64, a_parse_int32, a_parse_bigint. rewrite !a_check_is_check, C. auto.
+    - rewrite (leb_true _ _ H). change (255 =? 0) with false. change (255 =? 255) with true. reflexivity. }
+  unfold a_parse_int64, a_parse_int32, a_parse_bigint. change a_check_integer with check_asn1_integer. rewrite C. auto.
 Qed.
 
 (* ------------------------------------------------------------------ BIT STRING *)
@@ -169,7 +169,8 @@ Lemma a_bitstring_canonical bs d n : a_parse_bitstring bs = Some (d, n) -> a_bit
 Proof.
   destruct bs as [|pad data]; [discriminate|]. cbn [a_parse_bitstring].
   destruct ((7 <? pad) || ((blen (pad :: data) =? 1) && (0 <? pad))) eqn:E; [discriminate|].
-  destruct (last (pad :: data) 0 mod 2 ^ pad =? 0); [|discriminate]. intros [= <- <-].
+  destruct (last (pad :: data) 0 mod 2 ^ pad =? 0); [|discriminate]. intro H. apply some_inj in H.
+  pose proof (f_equal fst H) as Hd. pose proof (f_equal snd H) as Hn. cbn [fst snd] in Hd, Hn. subst d n.
   apply orb_false_iff in E as [E _]. apply N.ltb_ge in E.
   unfold a_bitstring_bytes. f_equal. apply pad_formula. lia.
 Qed.
@@ -180,7 +181,8 @@ Proof.
   destruct (7 <? pad) eqn:E; [discriminate|]. apply N.ltb_ge in E.
   destruct data as [|x t].
   - destruct (pad =? 0) eqn:E0; [|discriminate]. apply N.eqb_eq in E0. subst. intros [= <- <-]. reflexivity.
-  - destruct (last (x :: t) 0 mod 2 ^ pad =? 0); [|discriminate]. intros [= <- <-].
+  - destruct (last (x :: t) 0 mod 2 ^ pad =? 0); [|discriminate]. intro H. apply some_inj in H.
+    pose proof (f_equal fst H) as Hd. pose proof (f_equal snd H) as Hn. cbn [fst snd] in Hd, Hn. subst d n.
     unfold a_bitstring_bytes. f_equal. apply pad_formula. lia.
 Qed.
 
@@ -196,3 +198,584 @@ Proof.
   - cbn [bitstring_of_content]. destruct (7 <? pad); [reflexivity|].
     destruct data; [congruence|]. now rewrite (eqb_false _ _ Hp).
 Qed.
+
+(* ------------------------------------------------------------------ base-128 (OID sub-identifiers, high tag numbers) *)
+Lemma b128_len_spec5 n : (0 < n < 34359738368)%Z ->
+  b128_len 10 n = (if (n <? 128)%Z then 1 else if (n <? 16384)%Z then 2
+                   else if (n <? 2097152)%Z then 3 else if (n <? 268435456)%Z then 4 else 5)%nat.
+Proof.
+  intro H. cbn [b128_len]. rewrite !Z.shiftr_div_pow2 by lia. change (2 ^ 7)%Z with 128%Z.
+  rewrite (proj2 (Z.ltb_lt 0 n)) by lia.
+  destruct (n <? 128)%Z eqn:C1.
+  { apply Z.ltb_lt in C1. rewrite (proj2 (Z.ltb_ge 0 (n / 128))) by dlia. reflexivity. }
+  apply Z.ltb_ge in C1. rewrite (proj2 (Z.ltb_lt 0 (n / 128))) by dlia.
+  destruct (n <? 16384)%Z eqn:C2.
+  { apply Z.ltb_lt in C2. rewrite (proj2 (Z.ltb_ge 0 (n / 128 / 128))) by dlia. reflexivity. }
+  apply Z.ltb_ge in C2. rewrite (proj2 (Z.ltb_lt 0 (n / 128 / 128))) by dlia.
+  destruct (n <? 2097152)%Z eqn:C3.
+  { apply Z.ltb_lt in C3. rewrite (proj2 (Z.ltb_ge 0 (n / 128 / 128 / 128))) by dlia. reflexivity. }
+  apply Z.ltb_ge in C3. rewrite (proj2 (Z.ltb_lt 0 (n / 128 / 128 / 128))) by dlia.
+  destruct (n <? 268435456)%Z eqn:C4.
+  { apply Z.ltb_lt in C4. rewrite (proj2 (Z.ltb_ge 0 (n / 128 / 128 / 128 / 128))) by dlia. reflexivity. }
+  apply Z.ltb_ge in C4. rewrite (proj2 (Z.ltb_lt 0 (n / 128 / 128 / 128 / 128))) by dlia.
+  rewrite (proj2 (Z.ltb_ge 0 (n / 128 / 128 / 128 / 128 / 128))) by dlia. reflexivity.
+Qed.
+
+(* the octets appendBase128Int / addBase128Int write for n, most significant group first *)
+Definition b128_form (n : N) : bytes :=
+  if n <? 128 then [n]
+  else if n <? 16384 then [n / 128 + 128; n mod 128]
+  else if n <? 2097152 then [n / 16384 + 128; (n / 128) mod 128 + 128; n mod 128]
+  else if n <? 268435456 then [n / 2097152 + 128; (n / 16384) mod 128 + 128; (n / 128) mod 128 + 128; n mod 128]
+  else [n / 268435456 + 128; (n / 2097152) mod 128 + 128; (n / 16384) mod 128 + 128; (n / 128) mod 128 + 128; n mod 128].
+
+Lemma base128_bytes_form n : n < 34359738368 -> base128_bytes (Z.of_N n) = b128_form n.
+Proof.
+  intro H. unfold base128_bytes, b128_form.
+  destruct (Z.of_N n =? 0)%Z eqn:C0.
+  { apply Z.eqb_eq in C0. assert (n = 0) by lia. subst n. reflexivity. }
+  apply Z.eqb_neq in C0. rewrite b128_len_spec5 by lia.
+  destruct (n <? 128) eqn:D1; [|destruct (n <? 16384) eqn:D2; [|destruct (n <? 2097152) eqn:D3;
+    [|destruct (n <? 268435456) eqn:D4]]];
+    rewrite ?N.ltb_lt, ?N.ltb_ge in *.
+  - rewrite (proj2 (Z.ltb_lt _ _)) by lia.
+    cbn [seq rev app map Nat.eqb Z.of_nat Z.mul]. rewrite Z.shiftr_0_r. f_equal. dlia.
+  - rewrite (proj2 (Z.ltb_ge _ 128)), (proj2 (Z.ltb_lt _ 16384)) by lia.
+    cbn [seq rev app map Nat.eqb Z.of_nat Pos.of_succ_nat Pos.succ Z.mul Pos.mul Pos.add].
+    rewrite !Z.shiftr_div_pow2 by lia. change (2 ^ 0)%Z with 1%Z. change (2 ^ 7)%Z with 128%Z.
+    repeat f_equal; dlia.
+  - rewrite (proj2 (Z.ltb_ge _ 128)), (proj2 (Z.ltb_ge _ 16384)), (proj2 (Z.ltb_lt _ 2097152)) by lia.
+    cbn [seq rev app map Nat.eqb Z.of_nat Pos.of_succ_nat Pos.succ Z.mul Pos.mul Pos.add].
+    rewrite !Z.shiftr_div_pow2 by lia. change (2 ^ 0)%Z with 1%Z. change (2 ^ 7)%Z with 128%Z.
+    change (2 ^ 14)%Z with 16384%Z.
+    repeat f_equal; dlia.
+  - rewrite (proj2 (Z.ltb_ge _ 128)), (proj2 (Z.ltb_ge _ 16384)), (proj2 (Z.ltb_ge _ 2097152)),
+      (proj2 (Z.ltb_lt _ 268435456)) by lia.
+    cbn [seq rev app map Nat.eqb Z.of_nat Pos.of_succ_nat Pos.succ Z.mul Pos.mul Pos.add].
+    rewrite !Z.shiftr_div_pow2 by lia. change (2 ^ 0)%Z with 1%Z. change (2 ^ 7)%Z with 128%Z.
+    change (2 ^ 14)%Z with 16384%Z. change (2 ^ 21)%Z with 2097152%Z.
+    repeat f_equal; dlia.
+  - rewrite (proj2 (Z.ltb_ge _ 128)), (proj2 (Z.ltb_ge _ 16384)), (proj2 (Z.ltb_ge _ 2097152)),
+      (proj2 (Z.ltb_ge _ 268435456)) by lia.
+    cbn [seq rev app map Nat.eqb Z.of_nat Pos.of_succ_nat Pos.succ Z.mul Pos.mul Pos.add].
+    rewrite !Z.shiftr_div_pow2 by lia. change (2 ^ 0)%Z with 1%Z. change (2 ^ 7)%Z with 128%Z.
+    change (2 ^ 14)%Z with 16384%Z. change (2 ^ 21)%Z with 2097152%Z. change (2 ^ 28)%Z with 268435456%Z.
+    repeat f_equal; dlia.
+Qed.
+
+Lemma bytes_ok_cons b l : bytes_ok (b :: l) -> b < 256 /\ bytes_ok l.
+Proof. intro H. inversion H; auto. Qed.
+
+(* cryptobyte readBase128Int (repaired): what it accepts is the minimal encoding of what it returns *)
+Lemma cb_base128_canonical s v rest : read_base128 s = Some (v, rest) -> bytes_ok s ->
+  s = b128_form v ++ rest /\ v < 268435456.
+Proof.
+  unfold read_base128. intros H Hok.
+  destruct s as [|b0 s]; [discriminate|]. apply bytes_ok_cons in Hok as [H0 Hok].
+  cbn [read_base128_from] in H. change (0 =? 4) with false in H. change (0 =? 0) with true in H. cbn [andb] in H.
+  destruct (b0 =? 128) eqn:E0; [discriminate|]. apply N.eqb_neq in E0.
+  destruct (b0 <? 128) eqn:L0.
+  { apply N.ltb_lt in L0.
+    injection H as Hv Hr. rewrite (N.mod_small b0 128) in Hv by lia.
+    assert (Ev : v = b0) by lia. clear Hv. subst v rest.
+    unfold b128_form. rewrite (ltb_true (b0) 128) by lia.
+    split; [|lia]. cbn [app]. repeat f_equal; dlia. }
+  apply N.ltb_ge in L0.
+  destruct s as [|b1 s]; [discriminate|]. apply bytes_ok_cons in Hok as [H1 Hok].
+  cbn [read_base128_from] in H. change (0 + 1 =? 4) with false in H. change (0 + 1 =? 0) with false in H. cbn [andb] in H.
+  set (d0 := b0 mod 128) in *. assert (Hd0 : d0 = b0 - 128 /\ 1 <= d0 < 128) by (unfold d0; dlia).
+  destruct (b1 <? 128) eqn:L1.
+  { apply N.ltb_lt in L1.
+    injection H as Hv Hr. rewrite (N.mod_small b1 128) in Hv by lia.
+    assert (Ev : v = d0 * 128 + b1) by lia. clear Hv. subst v rest.
+    unfold b128_form. rewrite (ltb_false (d0 * 128 + b1) 128), (ltb_true (d0 * 128 + b1) 16384) by lia.
+    split; [|lia]. cbn [app]. repeat f_equal; dlia. }
+  apply N.ltb_ge in L1.
+  destruct s as [|b2 s]; [discriminate|]. apply bytes_ok_cons in Hok as [H2 Hok].
+  cbn [read_base128_from] in H. change (0 + 1 + 1 =? 4) with false in H. change (0 + 1 + 1 =? 0) with false in H. cbn [andb] in H.
+  set (d1 := b1 mod 128) in *. assert (Hd1 : d1 = b1 - 128 /\ d1 < 128) by (unfold d1; dlia).
+  destruct (b2 <? 128) eqn:L2.
+  { apply N.ltb_lt in L2.
+    injection H as Hv Hr. rewrite (N.mod_small b2 128) in Hv by lia.
+    assert (Ev : v = d0 * 16384 + d1 * 128 + b2) by lia. clear Hv. subst v rest.
+    unfold b128_form. rewrite (ltb_false (d0 * 16384 + d1 * 128 + b2) 128), (ltb_false (d0 * 16384 + d1 * 128 + b2) 16384), (ltb_true (d0 * 16384 + d1 * 128 + b2) 2097152) by lia.
+    split; [|lia]. cbn [app]. repeat f_equal; dlia. }
+  apply N.ltb_ge in L2.
+  destruct s as [|b3 s]; [discriminate|]. apply bytes_ok_cons in Hok as [H3 Hok].
+  cbn [read_base128_from] in H. change (0 + 1 + 1 + 1 =? 4) with false in H. change (0 + 1 + 1 + 1 =? 0) with false in H. cbn [andb] in H.
+  set (d2 := b2 mod 128) in *. assert (Hd2 : d2 = b2 - 128 /\ d2 < 128) by (unfold d2; dlia).
+  destruct (b3 <? 128) eqn:L3.
+  { apply N.ltb_lt in L3.
+    injection H as Hv Hr. rewrite (N.mod_small b3 128) in Hv by lia.
+    assert (Ev : v = d0 * 2097152 + d1 * 16384 + d2 * 128 + b3) by lia. clear Hv. subst v rest.
+    unfold b128_form. rewrite (ltb_false (d0 * 2097152 + d1 * 16384 + d2 * 128 + b3) 128), (ltb_false (d0 * 2097152 + d1 * 16384 + d2 * 128 + b3) 16384), (ltb_false (d0 * 2097152 + d1 * 16384 + d2 * 128 + b3) 2097152), (ltb_true (d0 * 2097152 + d1 * 16384 + d2 * 128 + b3) 268435456) by lia.
+    split; [|lia]. cbn [app]. repeat f_equal; dlia. }
+  apply N.ltb_ge in L3.
+  destruct s as [|b4 s]; [discriminate|]. cbn [read_base128_from] in H.
+  change (0 + 1 + 1 + 1 + 1 =? 4) with true in H. discriminate.
+Qed.
+
+(* encoding/asn1 parseBase128Int: at most 5 octets, value <= MaxInt32 *)
+Lemma a_base128_canonical s v rest : a_base128 s = Some (v, rest) -> bytes_ok s ->
+  s = b128_form v ++ rest /\ v <= 2147483647.
+Proof.
+  unfold a_base128. intros H Hok.
+  destruct s as [|b0 s]; [discriminate|]. apply bytes_ok_cons in Hok as [H0 Hok].
+  cbn [a_base128_from] in H. change (0 =? 5) with false in H. change (0 =? 0) with true in H. cbn [andb] in H.
+  destruct (b0 =? 128) eqn:E0; [discriminate|]. apply N.eqb_neq in E0.
+  destruct (b0 <? 128) eqn:L0.
+  { apply N.ltb_lt in L0.
+    destruct (2147483647 <? _) eqn:M in H; [discriminate|]. apply N.ltb_ge in M.
+    injection H as Hv Hr. rewrite (N.mod_small b0 128) in Hv by lia.
+    rewrite (N.mod_small b0 128) in M by lia.
+    assert (Ev : v = b0) by lia. clear Hv. subst v rest.
+    unfold b128_form. rewrite (ltb_true (b0) 128) by lia.
+    split; [|lia]. cbn [app]. repeat f_equal; dlia. }
+  apply N.ltb_ge in L0.
+  destruct s as [|b1 s]; [discriminate|]. apply bytes_ok_cons in Hok as [H1 Hok].
+  cbn [a_base128_from] in H. change (0 + 1 =? 5) with false in H. change (0 + 1 =? 0) with false in H. cbn [andb] in H.
+  set (d0 := b0 mod 128) in *. assert (Hd0 : d0 = b0 - 128 /\ 1 <= d0 < 128) by (unfold d0; dlia).
+  destruct (b1 <? 128) eqn:L1.
+  { apply N.ltb_lt in L1.
+    destruct (2147483647 <? _) eqn:M in H; [discriminate|]. apply N.ltb_ge in M.
+    injection H as Hv Hr. rewrite (N.mod_small b1 128) in Hv by lia.
+    rewrite (N.mod_small b1 128) in M by lia.
+    assert (Ev : v = d0 * 128 + b1) by lia. clear Hv. subst v rest.
+    unfold b128_form. rewrite (ltb_false (d0 * 128 + b1) 128), (ltb_true (d0 * 128 + b1) 16384) by lia.
+    split; [|lia]. cbn [app]. repeat f_equal; dlia. }
+  apply N.ltb_ge in L1.
+  destruct s as [|b2 s]; [discriminate|]. apply bytes_ok_cons in Hok as [H2 Hok].
+  cbn [a_base128_from] in H. change (0 + 1 + 1 =? 5) with false in H. change (0 + 1 + 1 =? 0) with false in H. cbn [andb] in H.
+  set (d1 := b1 mod 128) in *. assert (Hd1 : d1 = b1 - 128 /\ d1 < 128) by (unfold d1; dlia).
+  destruct (b2 <? 128) eqn:L2.
+  { apply N.ltb_lt in L2.
+    destruct (2147483647 <? _) eqn:M in H; [discriminate|]. apply N.ltb_ge in M.
+    injection H as Hv Hr. rewrite (N.mod_small b2 128) in Hv by lia.
+    rewrite (N.mod_small b2 128) in M by lia.
+    assert (Ev : v = d0 * 16384 + d1 * 128 + b2) by lia. clear Hv. subst v rest.
+    unfold b128_form. rewrite (ltb_false (d0 * 16384 + d1 * 128 + b2) 128), (ltb_false (d0 * 16384 + d1 * 128 + b2) 16384), (ltb_true (d0 * 16384 + d1 * 128 + b2) 2097152) by lia.
+    split; [|lia]. cbn [app]. repeat f_equal; dlia. }
+  apply N.ltb_ge in L2.
+  destruct s as [|b3 s]; [discriminate|]. apply bytes_ok_cons in Hok as [H3 Hok].
+  cbn [a_base128_from] in H. change (0 + 1 + 1 + 1 =? 5) with false in H. change (0 + 1 + 1 + 1 =? 0) with false in H. cbn [andb] in H.
+  set (d2 := b2 mod 128) in *. assert (Hd2 : d2 = b2 - 128 /\ d2 < 128) by (unfold d2; dlia).
+  destruct (b3 <? 128) eqn:L3.
+  { apply N.ltb_lt in L3.
+    destruct (2147483647 <? _) eqn:M in H; [discriminate|]. apply N.ltb_ge in M.
+    injection H as Hv Hr. rewrite (N.mod_small b3 128) in Hv by lia.
+    rewrite (N.mod_small b3 128) in M by lia.
+    assert (Ev : v = d0 * 2097152 + d1 * 16384 + d2 * 128 + b3) by lia. clear Hv. subst v rest.
+    unfold b128_form. rewrite (ltb_false (d0 * 2097152 + d1 * 16384 + d2 * 128 + b3) 128), (ltb_false (d0 * 2097152 + d1 * 16384 + d2 * 128 + b3) 16384), (ltb_false (d0 * 2097152 + d1 * 16384 + d2 * 128 + b3) 2097152), (ltb_true (d0 * 2097152 + d1 * 16384 + d2 * 128 + b3) 268435456) by lia.
+    split; [|lia]. cbn [app]. repeat f_equal; dlia. }
+  apply N.ltb_ge in L3.
+  destruct s as [|b4 s]; [discriminate|]. apply bytes_ok_cons in Hok as [H4 Hok].
+  cbn [a_base128_from] in H. change (0 + 1 + 1 + 1 + 1 =? 5) with false in H. change (0 + 1 + 1 + 1 + 1 =? 0) with false in H. cbn [andb] in H.
+  set (d3 := b3 mod 128) in *. assert (Hd3 : d3 = b3 - 128 /\ d3 < 128) by (unfold d3; dlia).
+  destruct (b4 <? 128) eqn:L4.
+  { apply N.ltb_lt in L4.
+    destruct (2147483647 <? _) eqn:M in H; [discriminate|]. apply N.ltb_ge in M.
+    injection H as Hv Hr. rewrite (N.mod_small b4 128) in Hv by lia.
+    rewrite (N.mod_small b4 128) in M by lia.
+    assert (Ev : v = d0 * 268435456 + d1 * 2097152 + d2 * 16384 + d3 * 128 + b4) by lia. clear Hv. subst v rest.
+    unfold b128_form. rewrite (ltb_false (d0 * 268435456 + d1 * 2097152 + d2 * 16384 + d3 * 128 + b4) 128), (ltb_false (d0 * 268435456 + d1 * 2097152 + d2 * 16384 + d3 * 128 + b4) 16384), (ltb_false (d0 * 268435456 + d1 * 2097152 + d2 * 16384 + d3 * 128 + b4) 2097152), (ltb_false (d0 * 268435456 + d1 * 2097152 + d2 * 16384 + d3 * 128 + b4) 268435456) by lia.
+    split; [|lia]. cbn [app]. repeat f_equal; dlia. }
+  apply N.ltb_ge in L4.
+  destruct s as [|b5 s]; [discriminate|]. cbn [a_base128_from] in H.
+  change (0 + 1 + 1 + 1 + 1 + 1 =? 5) with true in H. discriminate.
+Qed.
+
+(* ------------------------------------------------------------------ OBJECT IDENTIFIER *)
+Lemma bytes_ok_app a b : bytes_ok (a ++ b) -> bytes_ok a /\ bytes_ok b.
+Proof. intro H. apply Forall_app in H. exact H. Qed.
+
+Lemma read_arcs_canonical fuel : forall s l, read_arcs fuel s = Some l -> bytes_ok s ->
+  s = flat_map base128_bytes l /\ Forall (fun z => (0 <= z)%Z) l.
+Proof.
+  induction fuel as [|f IH]; intros s l H Hok.
+  - destruct s; [injection H as <-; split; [reflexivity|constructor]|discriminate].
+  - destruct s as [|b t]; [injection H as <-; split; [reflexivity|constructor]|].
+    cbn [read_arcs] in H. destruct (read_base128 (b :: t)) as [[v s']|] eqn:E; [|discriminate].
+    destruct (read_arcs f s') as [l'|] eqn:E'; [|discriminate]. injection H as <-.
+    destruct (cb_base128_canonical _ _ _ E Hok) as [Hs Hv].
+    rewrite Hs in Hok. apply bytes_ok_app in Hok as [_ Hok'].
+    destruct (IH s' l' E' Hok') as [Hs' Hl'].
+    split; [|constructor; [lia|assumption]].
+    cbn [flat_map]. rewrite base128_bytes_form by lia. rewrite Hs at 1. now rewrite Hs' at 1.
+Qed.
+
+Lemma a_arcs_canonical fuel : forall s l, a_arcs fuel s = Some l -> bytes_ok s ->
+  s = flat_map base128_bytes l /\ Forall (fun z => (0 <= z)%Z) l.
+Proof.
+  induction fuel as [|f IH]; intros s l H Hok.
+  - destruct s; [injection H as <-; split; [reflexivity|constructor]|discriminate].
+  - destruct s as [|b t]; [injection H as <-; split; [reflexivity|constructor]|].
+    cbn [a_arcs] in H. destruct (a_base128 (b :: t)) as [[v s']|] eqn:E; [|discriminate].
+    destruct (a_arcs f s') as [l'|] eqn:E'; [|discriminate]. injection H as <-.
+    destruct (a_base128_canonical _ _ _ E Hok) as [Hs Hv].
+    rewrite Hs in Hok. apply bytes_ok_app in Hok as [_ Hok'].
+    destruct (IH s' l' E' Hok') as [Hs' Hl'].
+    split; [|constructor; [lia|assumption]].
+    cbn [flat_map]. rewrite base128_bytes_form by lia. rewrite Hs at 1. now rewrite Hs' at 1.
+Qed.
+
+Lemma forallb_nonneg l : Forall (fun z => (0 <= z)%Z) l -> forallb (fun v => (0 <=? v)%Z) l = true.
+Proof. induction 1 as [|z t Hz Ht IH]; [reflexivity|]. cbn. rewrite IH. now rewrite (proj2 (Z.leb_le 0 z) Hz). Qed.
+
+(* the first two arcs packed into one sub-identifier *)
+Lemma first_arcs v : v < 34359738368 ->
+  let a := if v <? 80 then Z.of_N (v / 40) else 2%Z in
+  let b := if v <? 80 then Z.of_N (v mod 40) else Z.of_N (v - 80) in
+  (a * 40 + b = Z.of_N v)%Z /\ (0 <= a <= 2)%Z /\ (0 <= b)%Z /\ ((a <= 1)%Z -> (b < 40)%Z).
+Proof.
+  intro H. cbv zeta. destruct (v <? 80) eqn:C; [apply N.ltb_lt in C|apply N.ltb_ge in C].
+  - rewrite N2Z.inj_div, N2Z.inj_mod. change (Z.of_N 40) with 40%Z. dlia.
+  - lia.
+Qed.
+
+Lemma cb_oid_canonical c arcs : oid_of_content c = Some arcs -> bytes_ok c -> oid_content arcs = Some c.
+Proof.
+  intros H Hok. unfold oid_of_content in H. destruct c as [|x t]; [discriminate|].
+  destruct (read_base128 (x :: t)) as [[v s']|] eqn:E; [|discriminate].
+  destruct (read_arcs (length s') s') as [l|] eqn:E'; [|discriminate].
+  destruct (cb_base128_canonical _ _ _ E Hok) as [Hs Hv].
+  assert (Hok' : bytes_ok s') by (rewrite Hs in Hok; now apply bytes_ok_app in Hok as [_ ?]).
+  destruct (read_arcs_canonical _ _ _ E' Hok') as [Hs' Hl].
+  destruct (first_arcs v ltac:(lia)) as (Hab & Ha & Hb & Hab40). cbv zeta in *.
+  set (a := if v <? 80 then Z.of_N (v / 40) else 2%Z) in *.
+  set (b := if v <? 80 then Z.of_N (v mod 40) else Z.of_N (v - 80)) in *.
+  assert (Harcs : arcs = a :: b :: l) by (unfold a, b; destruct (v <? 80); congruence).
+  subst arcs. unfold oid_content.
+  assert (V : is_valid_oid (a :: b :: l) = true).
+  { cbn [is_valid_oid forallb]. rewrite (forallb_nonneg l Hl).
+    rewrite (proj2 (Z.leb_le 0 a)), (proj2 (Z.leb_le 0 b)) by lia. cbn [andb]. rewrite andb_true_r.
+    apply negb_true_iff, orb_false_iff. split; [apply Z.ltb_ge; lia|].
+    destruct (a <=? 1)%Z eqn:Ca; [|reflexivity]. apply Z.leb_le in Ca. cbn [andb]. apply Z.leb_gt. auto. }
+  rewrite V. f_equal.
+  assert (W : wrap64 (a * 40 + b) = Z.of_N v).
+  { rewrite Hab. unfold wrap64, two64, two63. rewrite Z.mod_small by lia.
+    rewrite (proj2 (Z.ltb_lt _ _)) by lia. reflexivity. }
+  rewrite W, base128_bytes_form by lia. rewrite Hs. now rewrite <- Hs'.
+Qed.
+
+Lemma a_oid_canonical bs arcs : a_parse_oid bs = Some arcs -> bytes_ok bs -> a_oid_bytes arcs = Some bs.
+Proof.
+  intros H Hok. unfold a_parse_oid in H. destruct bs as [|x t]; [discriminate|].
+  destruct (a_base128 (x :: t)) as [[v s']|] eqn:E; [|discriminate].
+  destruct (a_arcs (length s') s') as [l|] eqn:E'; [|discriminate].
+  destruct (a_base128_canonical _ _ _ E Hok) as [Hs Hv].
+  assert (Hok' : bytes_ok s') by (rewrite Hs in Hok; now apply bytes_ok_app in Hok as [_ ?]).
+  destruct (a_arcs_canonical _ _ _ E' Hok') as [Hs' Hl].
+  destruct (first_arcs v ltac:(lia)) as (Hab & Ha & Hb & Hab40). cbv zeta in *.
+  set (a := if v <? 80 then Z.of_N (v / 40) else 2%Z) in *.
+  set (b := if v <? 80 then Z.of_N (v mod 40) else Z.of_N (v - 80)) in *.
+  assert (Harcs : arcs = a :: b :: l) by (unfold a, b; destruct (v <? 80); congruence).
+  subst arcs. unfold a_oid_bytes.
+  assert (V : ((2 <? a) || ((a <? 2) && (40 <=? b)))%Z = false).
+  { apply orb_false_iff. split; [apply Z.ltb_ge; lia|].
+    destruct (a <? 2)%Z eqn:Ca; [|reflexivity]. apply Z.ltb_lt in Ca. cbn [andb]. apply Z.leb_gt. apply Hab40. lia. }
+  rewrite V. f_equal. rewrite Hab, base128_bytes_form by lia. rewrite Hs. now rewrite <- Hs'.
+Qed.
+
+(* the defect repaired by e03288a: without the leading-0x80 test the reader accepts
+   2a 80 01 as 1.2.1, which re-encodes as 2a 01 *)
+Fixpoint old_base128_from (i ret : N) (s : bytes) : option (N * bytes) :=
+  match s with
+  | [] => None
+  | b :: s' =>
+      if i =? 4 then None else
+      let ret' := ret * 128 + b mod 128 in
+      if b <? 128 then Some (ret', s') else old_base128_from (i + 1) ret' s'
+  end.
+Lemma old_base128_refuted :
+  old_base128_from 0 0 [128; 1] = Some (1, []) /\ b128_form 1 = [1] /\
+  read_base128 [128; 1] = None /\ oid_of_content [42; 128; 1] = None /\
+  oid_of_content [42; 1] = Some [1; 2; 1]%Z.
+Proof. repeat split; vm_compute; reflexivity. Qed.
+
+(* a sub-identifier with a leading 0x80 octet is rejected by both codecs *)
+Lemma leading_0x80_rejected s : read_base128 (128 :: s) = None /\ a_base128 (128 :: s) = None.
+Proof. split; reflexivity. Qed.
+
+(* ------------------------------------------------------------------ tag/length header: cryptobyte readASN1 *)
+Lemma asn1_len_octets_long k len : (1 <= k <= 4)%nat -> 128 <= len ->
+  256 ^ N.of_nat (k - 1) <= len < 256 ^ N.of_nat k -> len <= 4294967294 ->
+  asn1_len_octets len = Some ((128 + N.of_nat k) :: be_n k len).
+Proof.
+  intros Hk H128 [Hlo Hhi] Hmax. unfold asn1_len_octets.
+  rewrite (ltb_false 4294967294 len) by lia.
+  destruct k as [|[|[|[|[|k]]]]]; try lia; cbn in Hlo, Hhi.
+  - rewrite (ltb_false 16777215 len), (ltb_false 65535 len), (ltb_false 255 len), (ltb_true 127 len) by lia. reflexivity.
+  - rewrite (ltb_false 16777215 len), (ltb_false 65535 len), (ltb_true 255 len) by lia. reflexivity.
+  - rewrite (ltb_false 16777215 len), (ltb_true 65535 len) by lia. reflexivity.
+  - rewrite (ltb_true 16777215 len) by lia. reflexivity.
+Qed.
+
+Lemma quad_inj {A B C D} (a a' : A) (b b' : B) (c c' : C) (d d' : D) :
+  Some (a, b, c, d) = Some (a', b', c', d') -> a = a' /\ b = b' /\ c = c' /\ d = d'.
+Proof. intro H. inversion H. auto. Qed.
+Lemma bytes_ok_firstn n l : bytes_ok l -> bytes_ok (firstn n l).
+Proof.
+  revert l; induction n as [|n IH]; intros l H; [constructor|].
+  destruct l as [|x t]; [constructor|]. inversion H; subst. cbn. constructor; auto. apply IH; auto.
+Qed.
+
+Lemma cb_header_canonical s tag hl el rest : read_asn1 s = Some (tag, hl, el, rest) -> bytes_ok s ->
+  s = el ++ rest /\ h_asn1 tag (Some (skipn (N.to_nat hl) el)) = Some el.
+Proof.
+  intros H Hok. unfold read_asn1 in H. destruct s as [|t0 [|lb s']]; try discriminate.
+  destruct (t0 mod 32 =? 31) eqn:Et; [discriminate|].
+  pose proof Hok as Hok0. apply bytes_ok_cons in Hok as [Ht0 Hok]. apply bytes_ok_cons in Hok as [Hlb Hok'].
+  destruct (lb <? 128) eqn:Es.
+  - (* short form *)
+    apply N.ltb_lt in Es.
+    destruct (take (lb + 2) (t0 :: lb :: s')) as [[e r]|] eqn:Tk; [|discriminate].
+    apply quad_inj in H as (<- & Hhl & <- & <-). subst hl. apply take_spec in Tk as [Hs Hl]. split; [exact Hs|].
+    destruct e as [|e0 [|e1 c]]; try (rewrite ?blen_cons, ?blen_nil in Hl; lia).
+    cbn [app] in Hs. injection Hs as <- <- Hs'. rewrite !blen_cons in Hl.
+    change (N.to_nat 2) with 2%nat. cbn [skipn].
+    unfold h_asn1. rewrite Et. unfold asn1_len_octets.
+    assert (Hc : blen c = lb) by lia. rewrite Hc.
+    rewrite (ltb_false 4294967294 lb), (ltb_false 16777215 lb), (ltb_false 65535 lb), (ltb_false 255 lb), (ltb_false 127 lb) by lia.
+    reflexivity.
+  - (* long form *)
+    apply N.ltb_ge in Es. cbv zeta in H.
+    set (lenLen := lb mod 128) in *.
+    destruct ((lenLen =? 0) || (4 <? lenLen) || (blen (t0 :: lb :: s') <? 2 + lenLen)) eqn:C1; [discriminate|].
+    apply orb_false_iff in C1 as [C1 C3]. apply orb_false_iff in C1 as [C1 C2].
+    apply N.eqb_neq in C1. apply N.ltb_ge in C2, C3.
+    assert (Hlb' : lb = 128 + lenLen) by (unfold lenLen; dlia).
+    cbn [skipn] in H. set (L := firstn (N.to_nat lenLen) s') in *.
+    destruct (be_val L <? 128) eqn:C4; [discriminate|]. apply N.ltb_ge in C4.
+    destruct (be_val L / 2 ^ (8 * (lenLen - 1)) =? 0) eqn:C5; [discriminate|]. apply N.eqb_neq in C5.
+    destruct ((2 + lenLen + be_val L) mod 4294967296 <? be_val L) eqn:C6; [discriminate|]. apply N.ltb_ge in C6.
+    destruct (take (2 + lenLen + be_val L) (t0 :: lb :: s')) as [[e r]|] eqn:Tk; [|discriminate].
+    apply quad_inj in H as (<- & Hhl & <- & <-). subst hl. apply take_spec in Tk as [Hs Hl]. split; [exact Hs|].
+    destruct e as [|e0 [|e1 e']]; try (rewrite ?blen_cons, ?blen_nil in Hl; lia).
+    cbn [app] in Hs. injection Hs as <- <- Hs'. rewrite !blen_cons in Hl, C3.
+    assert (HlenL : length L = N.to_nat lenLen).
+    { unfold L. rewrite firstn_length. unfold blen in C3. lia. }
+    assert (HokL : bytes_ok L) by (unfold L; apply bytes_ok_firstn; exact Hok').
+    pose proof (be_val_lt L HokL) as Hlt. unfold blen in Hlt. rewrite HlenL, N2Nat.id in Hlt.
+    (* e' = L ++ c *)
+    assert (He' : e' = L ++ skipn (N.to_nat lenLen) e').
+    { unfold L. rewrite Hs'. rewrite firstn_app.
+      replace (N.to_nat lenLen - length e')%nat with 0%nat by (unfold blen in Hl; lia).
+      rewrite firstn_O, app_nil_r. symmetry. apply firstn_skipn. }
+    set (c := skipn (N.to_nat lenLen) e') in *.
+    assert (Hc : blen c = be_val L).
+    { unfold c, blen. rewrite skipn_length. unfold blen in Hl. lia. }
+    replace (N.to_nat (2 + lenLen)) with (S (S (N.to_nat lenLen))) by lia. cbn [skipn]. fold c.
+    unfold h_asn1. rewrite Et, Hc.
+    assert (Hpow : 2 ^ (8 * (lenLen - 1)) = 256 ^ N.of_nat (N.to_nat lenLen - 1)).
+    { rewrite N.pow_mul_r. change (2 ^ 8) with 256. f_equal. lia. }
+    rewrite Hpow in C5.
+    assert (Hlo : 256 ^ N.of_nat (N.to_nat lenLen - 1) <= be_val L).
+    { destruct (N.le_gt_cases (256 ^ N.of_nat (N.to_nat lenLen - 1)) (be_val L)) as [?|G]; [assumption|].
+      exfalso. apply C5. now apply N.div_small. }
+    assert (Hmax : be_val L <= 4294967294).
+    { assert (Hb32 : be_val L < 4294967296).
+      { eapply N.lt_le_trans; [exact Hlt|]. change 4294967296 with (256 ^ 4). apply N.pow_le_mono_r; lia. }
+      destruct (N.lt_ge_cases (2 + lenLen + be_val L) 4294967296) as [?|G]; [lia|]. exfalso.
+      assert ((2 + lenLen + be_val L) mod 4294967296 = 2 + lenLen + be_val L - 4294967296).
+      { symmetry. apply N.mod_unique with 1; lia. }
+      lia. }
+    rewrite (asn1_len_octets_long (N.to_nat lenLen) (be_val L)); try lia.
+    rewrite N2Nat.id, <- Hlb'. rewrite <- HlenL, (be_n_be_val L HokL).
+    cbn [app]. now rewrite <- He'.
+Qed.
+
+
+(* ------------------------------------------------------------------ tag/length header: encoding/asn1 parseTagAndLength *)
+Lemma a_length_loop_spec n : forall acc s len rest,
+  a_length_loop n acc s = Some (len, rest) -> bytes_ok s ->
+  exists L, s = L ++ rest /\ length L = n /\ bytes_ok L /\ len = acc * 256 ^ N.of_nat n + be_val L.
+Proof.
+  induction n as [|n IH]; intros acc s len rest H Hok.
+  - injection H as <- <-. exists []. repeat split; [constructor|cbn; lia].
+  - cbn [a_length_loop] in H. destruct s as [|b s']; [discriminate|].
+    destruct (8388608 <=? acc); [discriminate|].
+    destruct (acc * 256 + b =? 0); [discriminate|].
+    apply bytes_ok_cons in Hok as [Hb Hok].
+    destruct (IH _ _ _ _ H Hok) as (L & -> & HL & HokL & ->).
+    exists (b :: L). repeat split; [cbn; now rewrite HL|constructor; assumption|].
+    rewrite be_val_cons, pow256_succ. unfold blen. rewrite HL. lia.
+Qed.
+
+Lemma a_length_loop_bound n : forall acc s len rest,
+  a_length_loop (S n) acc s = Some (len, rest) -> 1 <= acc -> acc * 256 ^ N.of_nat n < 8388608.
+Proof.
+  induction n as [|n IH]; intros acc s len rest H Hacc.
+  - cbn [a_length_loop] in H. destruct s as [|b s']; [discriminate|].
+    destruct (8388608 <=? acc) eqn:C; [discriminate|]. apply N.leb_gt in C. cbn. lia.
+  - remember (S n) as m. cbn [a_length_loop] in H. destruct s as [|b s']; [discriminate|].
+    destruct (8388608 <=? acc) eqn:C; [discriminate|]. apply N.leb_gt in C.
+    destruct (acc * 256 + b =? 0); [discriminate|]. subst m.
+    pose proof (IH _ _ _ _ H ltac:(lia)) as B.
+    rewrite pow256_succ. set (p := 256 ^ N.of_nat n) in *. nia.
+Qed.
+
+Lemma a_length_length_spec n len : (1 <= n <= 4)%nat -> 256 ^ N.of_nat (n - 1) <= len < 256 ^ N.of_nat n ->
+  a_length_length 8 len = n.
+Proof.
+  intros Hn [Hlo Hhi]. destruct n as [|[|[|[|[|n]]]]]; try lia; cbn in Hlo, Hhi; cbn [a_length_length].
+  - rewrite (ltb_false 255 len) by lia. reflexivity.
+  - rewrite (ltb_true 255 len) by lia. rewrite (ltb_false 255 (len / 256)) by dlia. reflexivity.
+  - rewrite (ltb_true 255 len) by lia. rewrite (ltb_true 255 (len / 256)) by dlia.
+    rewrite (ltb_false 255 (len / 256 / 256)) by dlia. reflexivity.
+  - rewrite (ltb_true 255 len) by lia. rewrite (ltb_true 255 (len / 256)) by dlia.
+    rewrite (ltb_true 255 (len / 256 / 256)) by dlia. rewrite (ltb_false 255 (len / 256 / 256 / 256)) by dlia. reflexivity.
+Qed.
+
+(* the long-form length octets parseTagAndLength accepts are the ones appendLength writes *)
+Lemma a_long_length_canonical n s len rest : (1 <= n)%nat ->
+  a_length_loop n 0 s = Some (len, rest) -> bytes_ok s ->
+  s = a_length_bytes len ++ rest /\ a_length_length 8 len = n /\ (n <= 4)%nat.
+Proof.
+  intros Hn H Hok. destruct n as [|n]; [lia|].
+  destruct (a_length_loop_spec _ _ _ _ _ H Hok) as (L & -> & HL & HokL & Hlen).
+  rewrite N.mul_0_l, N.add_0_l in Hlen. subst len.
+  (* first octet is not zero *)
+  destruct L as [|b1 L']; [discriminate|]. cbn [length] in HL. injection HL as HL'.
+  cbn [a_length_loop app] in H. change (8388608 <=? 0) with false in H. cbn iota in H.
+  rewrite N.mul_0_l, N.add_0_l in H.
+  destruct (b1 =? 0) eqn:E1; [discriminate|]. apply N.eqb_neq in E1.
+  apply bytes_ok_cons in HokL as [Hb1 HokL'].
+  pose proof (be_val_lt L' HokL') as Hlt. unfold blen in Hlt. rewrite HL' in Hlt.
+  assert (Hn4 : (n <= 3)%nat).
+  { destruct n as [|n']; [lia|].
+    pose proof (a_length_loop_bound _ _ _ _ _ H ltac:(lia)) as B.
+    destruct n' as [|[|[|n'']]]; try lia. exfalso.
+    rewrite !pow256_succ in B. assert (0 < 256 ^ N.of_nat n'') by (apply N.neq_0_lt_0, N.pow_nonzero; lia). nia. }
+  assert (Hrange : 256 ^ N.of_nat n <= be_val (b1 :: L') < 256 ^ N.of_nat (S n)).
+  { rewrite be_val_cons, pow256_succ. unfold blen. rewrite HL'. set (p := 256 ^ N.of_nat n) in *. nia. }
+  assert (Hll : a_length_length 8 (be_val (b1 :: L')) = S n).
+  { apply a_length_length_spec; [lia|]. replace (S n - 1)%nat with n by lia. exact Hrange. }
+  split; [|split; [exact Hll|lia]].
+  unfold a_length_bytes. rewrite Hll.
+  replace (S n) with (length (b1 :: L')) by (cbn; now rewrite HL').
+  rewrite be_n_be_val by (constructor; assumption). reflexivity.
+Qed.
+
+Lemma a_header_canonical s t rest : a_parse_tag_and_length s = Some (t, rest) -> bytes_ok s ->
+  s = a_tag_and_length_bytes t ++ rest.
+Proof.
+  intros H Hok. unfold a_parse_tag_and_length in H. destruct s as [|b s1]; [discriminate|]. cbv zeta in H.
+  apply bytes_ok_cons in Hok as [Hb Hok1].
+  set (class := b / 64) in *. set (comp := 32 <=? b mod 64) in *. set (tag0 := b mod 32) in *.
+  assert (Hid : b = class * 64 + (if comp then 32 else 0) + tag0 /\ tag0 < 32 /\ class < 4).
+  { unfold class, comp, tag0. destruct (32 <=? b mod 64) eqn:C; [apply N.leb_le in C|apply N.leb_gt in C]; dlia. }
+  (* identifier *)
+  assert (Hident : exists tag s2,
+     (if tag0 =? 31 then match a_base128 s1 with
+                         | Some (t, s2) => if t <? 31 then None else Some (t, s2)
+                         | None => None end
+      else Some (tag0, s1)) = Some (tag, s2) /\
+     b :: s1 = (if 31 <=? tag then (class * 64 + (if comp then 32 else 0) + 31) :: base128_bytes (Z.of_N tag)
+                else [class * 64 + (if comp then 32 else 0) + tag]) ++ s2 /\ bytes_ok s2).
+  { destruct (tag0 =? 31) eqn:E31.
+    - apply N.eqb_eq in E31. destruct (a_base128 s1) as [[tg s2]|] eqn:Eb; [|discriminate].
+      destruct (tg <? 31) eqn:Elt; [discriminate|]. apply N.ltb_ge in Elt.
+      destruct (a_base128_canonical _ _ _ Eb Hok1) as [Hs1 Hmax].
+      exists tg, s2. split; [reflexivity|]. rewrite (leb_true 31 tg Elt). split.
+      + rewrite base128_bytes_form by lia. cbn [app]. rewrite <- Hs1. f_equal. lia.
+      + rewrite Hs1 in Hok1. now apply bytes_ok_app in Hok1 as [_ ?].
+    - apply N.eqb_neq in E31. exists tag0, s1. split; [reflexivity|].
+      rewrite (leb_false 31 tag0) by lia. split; [|assumption]. cbn [app]. f_equal. lia. }
+  destruct Hident as (tag & s2 & Etag & Hs & Hok2). rewrite Etag in H. rewrite Hs.
+  destruct s2 as [|lb s3]; [discriminate|]. apply bytes_ok_cons in Hok2 as [Hlb Hok3].
+  destruct (lb <? 128) eqn:Es.
+  - apply N.ltb_lt in Es. injection H as <- <-. unfold a_tag_and_length_bytes.
+    cbn [t_class t_compound t_tag t_length]. rewrite (leb_false 128 lb) by lia.
+    rewrite <- !app_assoc. reflexivity.
+  - apply N.ltb_ge in Es. set (numBytes := lb mod 128) in *.
+    destruct (numBytes =? 0) eqn:E0; [discriminate|]. apply N.eqb_neq in E0.
+    destruct (a_length_loop (N.to_nat numBytes) 0 s3) as [[len s4]|] eqn:El; [|discriminate].
+    destruct (len <? 128) eqn:E128; [discriminate|]. apply N.ltb_ge in E128. injection H as <- <-.
+    destruct (a_long_length_canonical (N.to_nat numBytes) s3 len s4 ltac:(lia) El Hok3) as (Hs3 & Hll & Hn4).
+    unfold a_tag_and_length_bytes. cbn [t_class t_compound t_tag t_length].
+    rewrite (leb_true 128 len) by lia. rewrite Hll, N2Nat.id.
+    replace (128 + numBytes) with lb by (unfold numBytes; dlia).
+    rewrite <- !app_assoc. cbn [app]. rewrite <- Hs3. reflexivity.
+Qed.
+
+(* ------------------------------------------------------------------ GeneralizedTime (cryptobyte) *)
+Lemma p2_inv a b n : p2 a b = Some n -> a = 48 + n / 10 /\ b = 48 + n mod 10 /\ n < 100.
+Proof.
+  unfold p2, is_digit. destruct ((48 <=? a) && (a <=? 57) && ((48 <=? b) && (b <=? 57))) eqn:E; [|discriminate].
+  apply andb_true_iff in E as [E1 E2]. apply andb_true_iff in E1 as [A1 A2]. apply andb_true_iff in E2 as [B1 B2].
+  apply N.leb_le in A1, A2, B1, B2. intros [= <-]. dlia.
+Qed.
+
+Lemma zone_canonical z off : zone_of z = Some off -> zone_bytes off = z /\ (-1500 < off < 1500)%Z.
+Proof.
+  unfold zone_of. destruct z as [|sg [|a [|b [|c [|d [|? ?]]]]]]; try discriminate.
+  - destruct (sg =? 90) eqn:E; [|discriminate]. apply N.eqb_eq in E. subst sg.
+    intros [= <-]. split; [reflexivity|lia].
+  - destruct (p2 a b) as [hh|] eqn:Eh; [|discriminate]. destruct (p2 c d) as [mm|] eqn:Em; [|discriminate].
+    destruct ((hh <=? 24) && (mm <=? 59) && negb ((hh =? 0) && (mm =? 0))) eqn:E; [|discriminate].
+    apply andb_true_iff in E as [E E3]. apply andb_true_iff in E as [E1 E2].
+    apply N.leb_le in E1, E2. apply negb_true_iff in E3.
+    assert (Hnz : hh * 60 + mm <> 0).
+    { intro Z0. assert (hh = 0) by lia. assert (mm = 0) by lia. subst. discriminate. }
+    apply p2_inv in Eh as (-> & -> & Hh). apply p2_inv in Em as (-> & -> & Hm).
+    destruct (sg =? 43) eqn:S1; [|destruct (sg =? 45) eqn:S2; [|discriminate]]; intros [= <-].
+    + apply N.eqb_eq in S1. subst sg. split; [|lia]. unfold zone_bytes.
+      rewrite (proj2 (Z.eqb_neq _ 0)) by lia. rewrite (proj2 (Z.ltb_ge _ 0)) by lia.
+      rewrite Z.abs_eq, N2Z.id by lia.
+      replace ((hh * 60 + mm) / 60) with hh by dlia. replace ((hh * 60 + mm) mod 60) with mm by dlia.
+      reflexivity.
+    + apply N.eqb_eq in S2. subst sg. split; [|lia]. unfold zone_bytes.
+      rewrite (proj2 (Z.eqb_neq _ 0)) by lia. rewrite (proj2 (Z.ltb_lt _ 0)) by lia.
+      rewrite Z.abs_neq, Z.opp_involutive, N2Z.id by lia.
+      replace ((hh * 60 + mm) / 60) with hh by dlia. replace ((hh * 60 + mm) mod 60) with mm by dlia.
+      reflexivity.
+Qed.
+
+Lemma cb_gentime_canonical c t : gtime_of_content c = Some t ->
+  gentime_content t = c /\ gentime_year_ok t = true.
+Proof.
+  unfold gtime_of_content.
+  do 14 (destruct c as [|? c]; [discriminate|]).
+  repeat match goal with
+         | |- context [match p2 ?a ?b with _ => _ end] =>
+             let E := fresh "E" in destruct (p2 a b) eqn:E; [apply p2_inv in E as (-> & -> & ?)|discriminate]
+         end.
+  destruct (zone_of c) as [off|] eqn:Ez; [|discriminate].
+  destruct (civil_ok _ _ _ _ _ _) eqn:Ec; [|discriminate]. intros [= <-].
+  apply zone_canonical in Ez as [Hz Hoff].
+  unfold gentime_content, gentime_year_ok. cbn [gY gMo gD gh gmi gs goff d4 d2 app].
+  rewrite N2Z.id. split.
+  - match goal with |- context [(?y / 1000)] =>
+      match y with ?a * 100 + ?b =>
+        assert (E1 : y / 1000 = a / 10) by dlia;
+        assert (E2 : (y / 100) mod 10 = a mod 10) by dlia;
+        assert (E3 : (y / 10) mod 10 = b / 10) by dlia;
+        assert (E4 : y mod 10 = b mod 10) by dlia
+      end end.
+    rewrite E1, E2, E3, E4, Hz. reflexivity.
+  - apply andb_true_iff. split; apply Z.leb_le; lia.
+Qed.
+
+(* ------------------------------------------------------------------ indefinite lengths *)
+Lemma indefinite_rejected tag s :
+  read_asn1 (tag :: 128 :: s) = None /\
+  (tag mod 32 <> 31 -> a_parse_tag_and_length (tag :: 128 :: s) = None).
+Proof.
+  split.
+  - unfold read_asn1. destruct (tag mod 32 =? 31); reflexivity.
+  - intro Ht. unfold a_parse_tag_and_length. cbv zeta. rewrite (eqb_false _ _ Ht). reflexivity.
+Qed.
+
+(* non-vacuity: each decoder accepts something, and the canonical theorems apply to it *)
+Lemma c19_nonvacuous :
+  read_asn1 [48; 129; 128] = None /\
+  (exists el, read_asn1 ([48; 129; 128] ++ nrep 7 128 ++ [9]) = Some (48, 3, el, [9])) /\
+  a_parse_tag_and_length [191; 129; 0; 130; 1; 0; 7] =
+    Some ({| t_class := 2; t_compound := true; t_tag := 128; t_length := 256 |}, [7]) /\
+  a_parse_int64 [255; 127] = Some (-129)%Z /\ asn1_signed [255; 127] = Some (-129)%Z /\
+  a_parse_oid [42; 134; 72; 134; 247; 13] = Some [1; 2; 840; 113549]%Z /\
+  oid_of_content [42; 134; 72; 134; 247; 13] = Some [1; 2; 840; 113549]%Z /\
+  a_parse_bitstring [3; 168] = Some ([168], 5%Z) /\ bitstring_of_content [3; 168] = Some ([168], 5%Z) /\
+  gtime_of_content [50;48;50;48;48;50;50;57;49;50;51;52;53;54;43;48;49;51;48] =
+    Some {| gY := 2020; gMo := 2; gD := 29; gh := 12; gmi := 34; gs := 56; goff := 90 |}.
+Proof. repeat split; try (eexists; vm_compute; reflexivity); vm_compute; reflexivity. Qed.
